@@ -168,7 +168,6 @@ def check_property(pid: str, spec: dict, tier: str, seed: int) -> int:
         assumptions.update(r.get("assumptions", []))
         if r["crash"]:
             crashes.append((r["fid"], r["crash"]))
-            continue
         if r["error"]:
             undecided.append((r["fid"], r["error"]))
         for o in r["obls"]:
